@@ -468,12 +468,18 @@ def gw_prestate(m, tables, pa, c, recv):
     # disjunctions (`a() || b()`) and merged arms leave no dominating guard: walk from the point where the receiver
     # is obtained (the element of this iteration / the navigation call) to the site, once per state, deciding every
     # predicate on the receiver's own state - sound as long as nothing writes the receiver on the way
-    if recv[0] == "call" and not _write_between(m, f, pa, recv[2], c.b, recv):
-        start = recv[2]
+    starts = []
+    if recv[0] == "call":
+        starts = [recv[2]]
+    elif recv[0] == "local":
+        # the variable of a climbing loop (`while let Some(p) = parent { .. parent = p.parent() }`): every definition starts
+        # the life of another task in it
+        starts = sorted({d[0] for d in f.defs().get(recv[1], [])})
+    if starts and not any(_write_between(m, f, pa, st, c.b, recv) for st in starts):
         pre2 = set()
         for v in T.STATES:
             seen = set()
-            work = list(f.succ(start))
+            work = [x for st in starts for x in f.succ(st)]
             hit = False
             while work and not hit:
                 x = work.pop()
@@ -483,7 +489,7 @@ def gw_prestate(m, tables, pa, c, recv):
                 if x == c.b:
                     hit = True
                     break
-                if x == start:
+                if x in starts:
                     continue  # the next iteration is another element
                 t = f.blocks[x]["t"]
                 if t[0] == "switch":
